@@ -462,7 +462,7 @@ func TestVerifC29(t *testing.T) {
 		scs = append(scs, c29Scenario{name: "tell/2callers-x2", mode: "tell", callers: 2, per: 2, conns: 1},
 			c29Scenario{name: "ask/3callers-x1/3conns", mode: "ask", callers: 3, per: 1, conns: 3},
 			c29Scenario{name: "tellsync/3callers-x1/3conns", mode: "tellsync", callers: 3, per: 1, conns: 3},
-			c29Scenario{name: "tell/3callers-x2/header-per-caller", mode: "tell", callers: 3, per: 2, conns: 1, perCaller: true})
+			c29Scenario{name: "tell/4callers-x1", mode: "tell", callers: 4, per: 1, conns: 1})
 	}
 	var all []vsched.Scenario
 	for _, sc := range scs {
